@@ -165,3 +165,14 @@ Theorem C14_rows_name_their_target : forall rows, the_rows = Some rows -> forall
 Proof. exact act_rows_name_their_target. Qed.
 Print Assumptions C14_rows_name_their_target.
 
+(* ---------------- the two spellings of the half-life in a row (number + unit, and hours - the column activity()
+   uses) agree to 1/500, for each of the 513 reaction rows (the row 186-W -> W-188 of the data as shipped did not:
+   69.4 d against 69.4 h; repaired in /repo) *)
+Theorem C14_halflife_columns_agree : forall line, In line ActivationDat.activation_dat -> halflife_cols_ok line = true.
+Proof. exact halflife_columns_agree. Qed.
+Print Assumptions C14_halflife_columns_agree.
+
+Theorem C14_halflife_rows_examined : length (filter is_data_row ActivationDat.activation_dat) = 513%nat.
+Proof. exact halflife_rows_examined. Qed.
+Print Assumptions C14_halflife_rows_examined.
+
